@@ -19,21 +19,21 @@
 (* header ports of an outbound frame to obtain the same key).              *)
 (*                                                                         *)
 (* Contract clauses (name : source)                                        *)
-(*  OneSessionPerConversation : internal_frame_processing.rst:39-42 ("It   *)
+(*  OneSessionPerConversation : internal_frame_processing.rst:45-46 ("It   *)
 (*     checks if an existing Session matches these details. If no match, a *)
-(*     new Session is created"), :73 (outbound: "If no Session ID was      *)
+(*     new Session is created"), :83 (outbound: "If no Session ID was      *)
 (*     provided ... create a new Session"); session_manager.py:359-364,    *)
 (*     380-385 (get, else create).  The table grows only by the key of the *)
 (*     frame at hand and shrinks only by SessionManager.clear ("Clears the *)
-(*     sessions", session_manager.py:100) - SessionsGrowByConversation.    *)
+(*     sessions", session_manager.py:101) - SessionsGrowByConversation.    *)
 (*     No other event that ends a session is documented anywhere (node     *)
 (*     shut-down, software stop: nothing), none is demanded here.          *)
-(*  SessionKeyedByConversation : Session docstring (session_manager.py:  *)
+(*  SessionKeyedByConversation : Session docstring (session_manager.py:    *)
 (*     24-37: protocol, the addresses and ports of the two endpoints);     *)
 (*     _get_session_key docstring (:109-120); the key of a created session *)
 (*     is <<protocol, PEER address, peer's port, own port>> of the frame   *)
 (*     at hand, whichever way the frame travels.                           *)
-(*  NewConversationToRequestedPort : internal_frame_processing.rst:58-59   *)
+(*  NewConversationToRequestedPort : internal_frame_processing.rst:67      *)
 (*     (a new payload goes to the destination IP and destination port the  *)
 (*     software names).                                                    *)
 (*  SessionMustExist / ReplyOnSameSession / NoGrowthOnReply :              *)
@@ -41,33 +41,33 @@
 (*     (session_manager.py:191, 206: "the session details override other   *)
 (*     parameters"), receive_payload_from_software_manager docstring       *)
 (*     (:275 "an existing session is used otherwise"),                     *)
-(*     internal_frame_processing.rst:59 ("session id for existing          *)
+(*     internal_frame_processing.rst:67 ("session id for existing          *)
 (*     sessions"); IOSoftware.receive hands the software the session id to *)
 (*     answer on.  A payload sent on a session goes to the session's peer  *)
 (*     with the session's protocol, from the own port to the peer's port   *)
 (*     (the header ports of the answered frame swapped), and creates no    *)
 (*     session.                                                            *)
 (*  OwnerIsLastInstalled / OwnerIsInstalledClaimant / EveryClaimedPairOwned*)
-(*     : session_and_software_manager.rst:59 ("Maintains a registry of     *)
+(*     : session_and_software_manager.rst:62 ("Maintains a registry of     *)
 (*     services and applications, keyed by protocol and port numbers");    *)
 (*     software_manager.py:152 (install claims the pair), :177-185         *)
 (*     (uninstall hands a shared pair back; commit ae79df5); the registry  *)
 (*     never names software that is not installed ("Installation and       *)
 (*     Uninstallation ... managing the availability of software").         *)
 (*  AcceptedOnlyIfOpen / DroppedOnlyIfClosed :                             *)
-(*     session_and_software_manager.rst:67-73 (Initial Port Check, Frame   *)
+(*     session_and_software_manager.rst:70-75 (Initial Port Check, Frame   *)
 (*     Acceptance); host_node.py:406-437.  The documentation speaks of     *)
 (*     port AND protocol, the code looks at the port only: a frame whose   *)
 (*     port is open for another protocol may go either way here (it is     *)
 (*     dropped at dispatch at the latest).                                 *)
 (*  DeliveredOnlyToDue / AllDueDelivered / NotTwice :                      *)
-(*     internal_frame_processing.rst:48-52; receive_payload_from_session_  *)
+(*     internal_frame_processing.rst:54-55; receive_payload_from_session_  *)
 (*     manager docstring (software_manager.py:249-252: the owner of the    *)
 (*     port and "software listening in on other ports"); only RUNNING      *)
-(*     software on a node that is ON handles payloads (software.rst:16     *)
+(*     software on a node that is ON handles payloads (software.rst:15     *)
 (*     "will not work unless the node has been turned on", commit 0cc39b6);*)
 (*     a payload nobody is due for is dropped without exception.           *)
-(*  ServedWhenOpen : session_and_software_manager.rst:67-86 (steps 1, 2, 4,*)
+(*  ServedWhenOpen : session_and_software_manager.rst:70-84 (steps 1, 2, 4,*)
 (*     5: the node accepts the frame because software is running on its    *)
 (*     port and protocol; the dispatch "identifies the target based on the *)
 (*     frame's destination port and protocol, aligning with the initial    *)
@@ -78,8 +78,8 @@
 (*     ports on the Node"), commit ae79df5: the ports (and listen ports)   *)
 (*     of RUNNING software, nothing else.                                  *)
 (*  RunsOnlyWhenOn / ServiceStartsOnInstall / NothingRunsWhenOff :         *)
-(*     software.rst:16, :31 ("service is immediately ran after install"),  *)
-(*     :35 ("service stops when node is powered off").                     *)
+(*     software.rst:15, :34 ("service is immediately ran after install"),  *)
+(*     :38 ("service stops when node is powered off").                     *)
 (*  ConnsWithinMax / AddConnOutcome / TerminateReportsRemoval / ConnCount :*)
 (*     IOSoftware.max_sessions ("maximum number of sessions that the       *)
 (*     software can handle simultaneously"), add_connection (software.py:  *)
